@@ -17,6 +17,7 @@ import (
 	"fmt"
 	"math/rand"
 	"os"
+	"runtime"
 	"runtime/debug"
 	"sort"
 	"sync"
@@ -272,7 +273,11 @@ func wrMain(args []string) int {
 	skip := fs.Int("skip", 0, "skip the first scenarios (resume after a crash)")
 	nomem := fs.Bool("nomem", false, "do not record allocator events")
 	backup := fs.String("backup", "", "directory: run StoreToDisk concurrently with the writers and restore it afterwards")
+	churn := fs.Float64("churn", 0, "seconds per scenario of reader-vs-churn stress (instead of the round-based scenarios)")
 	fs.Parse(args)
+	if *churn > 0 {
+		nh.GuardSlots = 1000000
+	}
 	wrNoMem = *nomem
 	t, err := tr.Create(*out)
 	if err != nil {
@@ -309,6 +314,13 @@ func wrMain(args []string) int {
 		}
 		fmt.Fprintf(os.Stderr, "BEGIN %d\n", i)
 		t.Flush()
+		if *churn > 0 {
+			if msg := wrChurn(t, srnd, c, *churn, i); msg != "" {
+				failed = append(failed, fmt.Sprintf("scenario %d: %s", i, msg))
+			}
+			t.Flush()
+			continue
+		}
 		if msg := wrScenario(t, srnd, c, i); msg != "" {
 			failed = append(failed, fmt.Sprintf("scenario %d: %s", i, msg))
 		}
@@ -416,3 +428,139 @@ func wrRestoreMain(args []string) int {
 }
 
 func init() { register("wr-restore", wrRestoreMain) }
+
+// wrChurn: long-running readers (Visitor with many shards, refreshing iterators, backups) over a pinned
+// snapshot while writers insert and delete neighbouring keys within the current epoch as fast as they can:
+// every pointer a reader keeps across its accessor tokens (pivots, copied items, nodes under a cursor) is
+// exposed to reclamation.  Events: View (the snapshot's content), RScan / Restore, M, Closed.
+func wrChurn(t *tr.W, rnd *rand.Rand, c wrCfg, secs float64, idx int) string {
+	memOn := int32(0)
+	nh.MemEvent = func(kind string, id int64, size int) {
+		if atomic.LoadInt32(&memOn) == 1 && !wrNoMem {
+			t.Emit(tr.Ev{"e": "M", "k": kind, "id": id, "sz": size})
+		}
+	}
+	names := []string{"w1", "w2"}
+	c.Cfg.Writers = 2
+	t.Emit(tr.Ev{"e": "WrInit", "procs": names, "cfg": c.Cfg, "nk": c.NK, "churn": true})
+	atomic.StoreInt32(&memOn, 1)
+	d := nh.Open(c.Cfg)
+	if d.G != nil {
+		fmt.Fprintln(os.Stderr, d.G.Describe())
+	}
+	nstable := 100 + rnd.Intn(400)
+	for i := 1; i <= nstable; i++ {
+		d.W[0].Put2(d.Item(2*i, i))
+	}
+	s1, _ := d.NewSnapshot()
+	view, _ := d.Scan(s1, 0)
+	t.Emit(tr.Ev{"e": "View", "sn": 1, "items": view, "count": s1.Count()})
+	stop := int32(0)
+	var wg sync.WaitGroup
+	for w := 0; w < 2; w++ {
+		wg.Add(1)
+		wr := d.W[w]
+		wrnd := rand.New(rand.NewSource(rnd.Int63()))
+		go func(w int) {
+			defer wg.Done()
+			debug.SetPanicOnFault(true)
+			for n := 0; atomic.LoadInt32(&stop) == 0; n++ {
+				// odd keys, between the stable ones: they become pivots and cursor positions of the readers
+				wr.Put2(d.Item(2*(1+wrnd.Intn(nstable))+1, n))
+				if wrnd.Intn(4) != 0 {
+					wr.Delete(d.Item(2*(1+wrnd.Intn(nstable))+1, 0))
+				}
+				if n%64 == 0 {
+					time.Sleep(20 * time.Microsecond)
+				}
+			}
+		}(w)
+	}
+	var rwg sync.WaitGroup
+	for r := 0; r < 3; r++ {
+		rwg.Add(1)
+		rr := rand.New(rand.NewSource(rnd.Int63()))
+		go func(r int) {
+			defer rwg.Done()
+			debug.SetPanicOnFault(true)
+			for atomic.LoadInt32(&stop) == 0 {
+				if !s1.Open() {
+					return
+				}
+				var items [][2]int
+				switch rr.Intn(4) {
+				case 0, 1:
+					var mu sync.Mutex
+					per := map[int][][2]int{}
+					d.Visitor(s1, func(itm *nitro.Item, shard int) error {
+						kv := d.Decode(itm.Bytes())
+						mu.Lock()
+						per[shard] = append(per[shard], kv)
+						mu.Unlock()
+						if rr.Intn(16) == 0 {
+							runtime.Gosched()
+						}
+						return nil
+					}, []int{2, 4, 8, 16, 32}[rr.Intn(5)], 1+rr.Intn(3))
+					var ks []int
+					for k := range per {
+						ks = append(ks, k)
+					}
+					sort.Ints(ks)
+					items = [][2]int{}
+					for _, k := range ks {
+						items = append(items, per[k]...)
+					}
+					t.Emit(tr.Ev{"e": "RScan", "sn": 1, "items": items, "by": "visitor"})
+				case 2:
+					items, _ = d.Scan(s1, []int{1, 3, 17}[rr.Intn(3)])
+					t.Emit(tr.Ev{"e": "RScan", "sn": 1, "items": items, "by": "iterator"})
+				default:
+					if c.Backup != "" && r == 0 {
+						s1.Open()
+						os.RemoveAll(c.Backup)
+						err := d.StoreToDisk(c.Backup, s1, 1+rr.Intn(3), nil)
+						ev := tr.Ev{"e": "Restore", "sn": 1, "stored": err == nil, "loaded": false, "items": [][2]int{}, "count": 0}
+						if err == nil {
+							rc := c.Cfg
+							rc.Writers, rc.Guard, rc.MM = 1, false, false
+							memWas := atomic.SwapInt32(&memOn, 0)
+							nd := nh.Open(rc)
+							rs, lerr := nd.LoadFromDisk(c.Backup, 2, nil)
+							if lerr == nil {
+								nd.RefreshStore()
+								it2, _ := nd.Scan(rs, 0)
+								ev["loaded"], ev["items"], ev["count"] = true, it2, rs.Count()
+								rs.Close()
+							}
+							nd.Shutdown()
+							atomic.StoreInt32(&memOn, memWas)
+						}
+						t.Emit(ev)
+					}
+				}
+				s1.Close()
+			}
+		}(r)
+	}
+	time.Sleep(time.Duration(secs * float64(time.Second)))
+	atomic.StoreInt32(&stop, 1)
+	wg.Wait()
+	rwg.Wait()
+	s1.Close()
+	d.GC()
+	if err := d.Quiesce(); err != nil {
+		return err.Error()
+	}
+	d.Shutdown()
+	atomic.StoreInt32(&memOn, 0)
+	if d.Mem != nil {
+		m, f, live, errs := d.Mem.Counts()
+		if errs == nil {
+			errs = []string{}
+		}
+		t.Emit(tr.Ev{"e": "Closed", "mallocs": m, "frees": f, "live": live, "errs": errs})
+	}
+	t.Emit(tr.Ev{"e": "WrEnd", "idx": idx})
+	return ""
+}
